@@ -468,6 +468,76 @@ func rulesC03(w *World, o *Out) {
 	}
 	o.Count("C03.R3 identity-bearing request fields examined", nId, 8)
 
+	// ---- R8: index entries and reports that belong to somebody else are written only when absent ----
+	o.Rule("C03.R8", "state that may already belong to another principal is written only when absent: the ERC20 -> denom binding in SetERC20ToTokenDenom, and a queued message's relay report (public access data / error data), which is attributed to the validator that reported first")
+	if h := w.MustFunc(o, skw, "msgServer", "SetERC20ToTokenDenom"); h != nil {
+		o.Analysed(w.FuncKey(h))
+		sites := FindCalls(h, false, isCallee(skw, "Keeper", "setDenomToERC20"))
+		o.Count("C03.R8 setDenomToERC20 sites in the handler", len(sites), 1)
+		for _, st := range sites {
+			ok := false
+			for _, fa := range FactsAt(st.Instr) {
+				if fa.Kind != FCmp {
+					continue
+				}
+				for _, pr := range [][2]ssa.Value{{fa.X, fa.Y}, {fa.Y, fa.X}} {
+					lc, isCall := canon(pr[0]).(*ssa.Call)
+					if !isCall {
+						continue
+					}
+					bi, isB := lc.Call.Value.(*ssa.Builtin)
+					k, isC := canon(pr[1]).(*ssa.Const)
+					if !isB || bi.Name() != "len" || !isC || k.Value == nil || k.Int64() != 0 {
+						continue
+					}
+					empty := fa.Op == token.EQL || (fa.Op == token.LEQ && pr[0] == fa.X) || (fa.Op == token.GEQ && pr[0] == fa.Y)
+					if empty && fl.DependsOnCall(lc.Call.Args[0], isCallee(skw, "Keeper", "GetDenomOfERC20")) != nil {
+						ok = true
+					}
+				}
+			}
+			o.Check("C03.R8", "SetERC20ToTokenDenom|the ERC20 contract is bound only when it has no binding yet", ok, w.Pos(st.Instr.Pos()),
+				"the handler checks that the creator administers the denomination, but the erc20 -> denom index entry it overwrites may belong to another admin or to a governance mapping; the write must be dominated by GetDenomOfERC20(chain, erc20) returning nothing")
+		}
+	}
+	for _, spec := range []struct {
+		fn    string
+		needs []string
+	}{{"SetPublicAccessData", []string{"GetPublicAccessData"}}, {"SetErrorData", []string{"GetErrorData", "GetPublicAccessData"}}} {
+		q := w.MustFunc(o, cqp, "Queue", spec.fn)
+		if q == nil {
+			continue
+		}
+		o.Analysed(w.FuncKey(q))
+		n := 0
+		for _, st := range CallsIn(q) {
+			if st.Callee.Name != spec.fn || !st.Common().IsInvoke() {
+				continue
+			}
+			n++
+			var missing []string
+			for _, g := range spec.needs {
+				held := false
+				for _, fa := range FactsAt(st.Instr) {
+					if fa.Kind != FNil {
+						continue
+					}
+					if c, isCall := canon(fa.V).(*ssa.Call); isCall {
+						if cal, okc := CalleeOf(c.Common()); okc && cal.Name == g {
+							held = true
+						}
+					}
+				}
+				if !held {
+					missing = append(missing, g+"() == nil")
+				}
+			}
+			o.Check("C03.R8", "Queue."+spec.fn+"|a relay report is recorded only when none exists", len(missing) == 0, w.Pos(st.Instr.Pos()),
+				"the report carries the reporting validator's address; once one validator has reported, another validator's transaction must not replace it; missing dominating condition: "+strings.Join(missing, ", "))
+		}
+		o.Count("C03.R8 report writes in Queue."+spec.fn, n, 1)
+	}
+
 	// ---- R6 ----
 	nB := 0
 	idParam := func(name string) bool {
